@@ -299,7 +299,8 @@ def canon_model_errs(errs: list) -> list:
 
 def canon_group(g: dict) -> dict:
     from harness.props.c16 import canon
-    return {'decls': [{k: d[k] for k in ('n', 'use', 'fixed', 'ty')} for d in g['decls']],
+    # the order of the dict entries is immaterial here (lookups by name); C03 owns the decoding order
+    return {'decls': sorted(({k: d[k] for k in ('n', 'use', 'fixed', 'ty')} for d in g['decls']), key=lambda d: d['n']),
             'any': None if g['any'] is None else {'wc': canon(g['any']['wc']), 'pc': g['any']['pc']}}
 
 
